@@ -567,7 +567,10 @@ impl AssemblyCode {
                                 }
                             }
                             accumulator = Some(inst.dasm_operand.clone());
-                            flags = FlagsState::A;
+                            // A load that has just been removed sets no flags
+                            if !remove_second {
+                                flags = FlagsState::A;
+                            }
                         }
                         AsmMnemonic::LDX => {
                             if let Some(v) = &accumulator {
